@@ -25,15 +25,15 @@ type txObs struct {
 }
 
 type caseInfo struct {
-	sch       *Schema
-	rules     []rule
-	nbind     int
-	faulty    bool // panic / timeout rule present
-	nested    bool // some rule issues mutations
-	nthRules  bool // some rule depends on the call count
-	handlers  bool
-	detach    bool // some handler detaches a binding
-	disposes  bool // the history disposes the machine
+	sch      *Schema
+	rules    []rule
+	nbind    int
+	faulty   bool // panic / timeout rule present
+	nested   bool // some rule issues mutations
+	nthRules bool // some rule depends on the call count
+	handlers bool
+	detach   bool // some handler detaches a binding
+	disposes bool // the history disposes the machine
 }
 
 func parseCaseInfo(c Case, sch *Schema) caseInfo {
@@ -939,14 +939,14 @@ func Monitor(prop string, c Case, sch *Schema, obs []OpObs) []Failure {
 		}
 	case "C06", "C13":
 		type subRec struct {
-			id     int
-			kind   string
-			p      []string
-			ctx    int
-			line   int
-			held   bool // condition has held since subscribing
+			id        int
+			kind      string
+			p         []string
+			ctx       int
+			line      int
+			held      bool // condition has held since subscribing
 			baseClock []uint64
-			tick0  uint64
+			tick0     uint64
 		}
 		var subsL []*subRec
 		ctxDone := map[int]bool{}
